@@ -18,9 +18,9 @@ Proof.
   destruct (existsb _ (m_fields m)); [discriminate|]. inversion H; subst. apply rm_fields_inv. exact HI.
 Qed.
 
-Theorem step_inv : forall o m m', regroups_op o = false -> Inv m -> step o m = Ok m' -> Inv m'.
+Theorem step_inv : forall o m m', Inv m -> step o m = Ok m' -> Inv m'.
 Proof.
-  intros o m m' Hsafe HI H. destruct o; simpl in H; try discriminate Hsafe.
+  intros o m m' HI H. destruct o; simpl in H.
   - destruct (add_table name kinds pview m) as [[m1 t]| |] eqn:E; simpl in H; try discriminate.
     inversion H; subst. apply (add_table_inv _ _ _ _ _ _ HI E).
   - apply (remove_tables_inv _ _ _ HI H).
@@ -43,20 +43,18 @@ Proof.
   - apply (set_custom_inv [] _ _ _ _ HI H).
   - apply (rename_table_inv _ _ _ _ HI H).
   - apply (create_summary_inv _ _ _ _ _ _ _ _ HI H).
+  - apply (apply_regroup_inv _ _ _ HI H).
   - apply (remove_columns_regroup_inv _ _ _ _ HI H).
   - inversion H; subst. exact HI.
   - discriminate.
 Qed.
 
-Definition no_regroups (os : list op) : bool := forallb (fun o => negb (regroups_op o)) os.
-
-Theorem steps_inv : forall os m m', no_regroups os = true -> Inv m -> steps os m = Ok m' -> Inv m'.
+Theorem steps_inv : forall os m m', Inv m -> steps os m = Ok m' -> Inv m'.
 Proof.
-  induction os as [|o t IH]; intros m m' Hs HI H; simpl in H.
+  induction os as [|o t IH]; intros m m' HI H; simpl in H.
   - inversion H; subst. exact HI.
-  - simpl in Hs. apply andb_true_iff in Hs. destruct Hs as [Hs1 Hs2]. apply negb_true_iff in Hs1.
-    destruct (step o m) as [m1| |] eqn:E; simpl in H; try discriminate.
-    apply (IH m1 m'); [exact Hs2 | apply (step_inv o m m1 Hs1 HI E) | exact H].
+  - destruct (step o m) as [m1| |] eqn:E; simpl in H; try discriminate.
+    apply (IH m1 m'); [apply (step_inv o m m1 HI E) | exact H].
 Qed.
 
 Lemma auto_round_inv : forall m m', Inv m -> auto_round m = Ok m' -> Inv m'.
@@ -89,27 +87,26 @@ Proof.
       apply (IH m1 m'); [apply (auto_round_inv m m1 HI Er) | exact H].
 Qed.
 
+
 (* a whole bundle *)
-Theorem run_bundle_core : forall os m m',
-  no_regroups os = true -> refs_core m = true -> run_bundle os m = Ok m' -> RefsResolve m' = true.
+Theorem run_bundle_core : forall os m m', refs_core m = true -> run_bundle os m = Ok m' -> RefsResolve m' = true.
 Proof.
-  intros os m m' Hs HR H. apply refs_core_iff in HR. unfold run_bundle in H.
+  intros os m m' HR H. apply refs_core_iff in HR. unfold run_bundle in H.
   destruct (steps os m) as [m1| |] eqn:E; unfold bind in H; try discriminate.
-  pose proof (steps_inv os m m1 Hs HR E) as HI1.
+  pose proof (steps_inv os m m1 HR E) as HI1.
   apply RefsResolve_iff. apply (auto_fix_inv _ m1 m' HI1 H).
 Qed.
 
 Theorem run_bundle_preserves : forall os m m',
-  no_regroups os = true -> RefsResolve m = true -> run_bundle os m = Ok m' -> RefsResolve m' = true.
+  RefsResolve m = true -> run_bundle os m = Ok m' -> RefsResolve m' = true.
 Proof.
-  intros os m m' Hs HR H. unfold RefsResolve in HR. apply andb_true_iff in HR. destruct HR as [HR _].
-  apply (run_bundle_core os m m' Hs HR H).
+  intros os m m' HR H. unfold RefsResolve in HR. apply andb_true_iff in HR. destruct HR as [HR _].
+  apply (run_bundle_core os m m' HR H).
 Qed.
 
 (* single actions keep the core part (helper columns may be unused until the end of the bundle) *)
-Theorem step_preserves_core : forall o m m',
-  regroups_op o = false -> refs_core m = true -> step o m = Ok m' -> refs_core m' = true.
-Proof. intros o m m' Hs HR H. apply refs_core_iff. apply refs_core_iff in HR. apply (step_inv o m m' Hs HR H). Qed.
+Theorem step_preserves_core : forall o m m', refs_core m = true -> step o m = Ok m' -> refs_core m' = true.
+Proof. intros o m m' HR H. apply refs_core_iff. apply refs_core_iff in HR. apply (step_inv o m m' HR H). Qed.
 
 (* the auto-removal loop alone: from any state satisfying the core part *)
 Theorem auto_fix_resolves : forall fuel m m', refs_core m = true -> auto_fix fuel m = Ok m' -> RefsResolve m' = true.
@@ -120,68 +117,11 @@ Qed.
 (* states reachable from a new document by bundles of modelled actions *)
 Inductive reachable : meta -> Prop :=
 | reach_init : reachable empty_meta
-| reach_bundle : forall m os m', reachable m -> no_regroups os = true -> run_bundle os m = Ok m' -> reachable m'.
+| reach_bundle : forall m os m', reachable m -> run_bundle os m = Ok m' -> reachable m'.
 
 Theorem reachable_resolve : forall m, reachable m -> RefsResolve m = true.
 Proof.
-  intros m H. induction H as [|m os m' Hr IH Hs Hb].
-  - vm_compute. reflexivity.
-  - apply (run_bundle_preserves os m m' Hs IH Hb).
-Qed.
-
-(* ---------------------------------------------------------------------------------------------- *)
-(* all modelled actions, update_summary_section under its guard *)
-
-Theorem step_guarded_inv : forall o m m', Inv m -> step_guarded o m = Ok m' -> Inv m'.
-Proof.
-  intros o m m' HI H. destruct (regroups_op o) eqn:Er.
-  - destruct o; try discriminate Er; simpl in H. apply (apply_regroup_inv r m m' HI H).
-  - apply (step_inv o m m' Er HI). destruct o; try discriminate Er; exact H.
-Qed.
-
-Theorem steps_guarded_inv : forall os m m', Inv m -> steps_guarded os m = Ok m' -> Inv m'.
-Proof.
-  induction os as [|o t IH]; intros m m' HI H; simpl in H.
-  - inversion H; subst. exact HI.
-  - destruct (step_guarded o m) as [m1| |] eqn:E; simpl in H; try discriminate.
-    apply (IH m1 m'); [apply (step_guarded_inv o m m1 HI E) | exact H].
-Qed.
-
-Theorem run_bundle_guarded_preserves : forall os m m',
-  RefsResolve m = true -> run_bundle_guarded os m = Ok m' -> RefsResolve m' = true.
-Proof.
-  intros os m m' HR H. unfold RefsResolve in HR. apply andb_true_iff in HR. destruct HR as [HR _].
-  apply refs_core_iff in HR. unfold run_bundle_guarded in H.
-  destruct (steps_guarded os m) as [m1| |] eqn:E; unfold bind in H; try discriminate.
-  pose proof (steps_guarded_inv os m m1 HR E) as HI1.
-  apply RefsResolve_iff. apply (auto_fix_inv _ m1 m' HI1 H).
-Qed.
-
-(* the guarded run is the faithful run whenever it is defined *)
-Lemma step_guarded_agrees : forall o m m', step_guarded o m = Ok m' -> step o m = Ok m'.
-Proof.
-  intros o m m' H. destruct o; try exact H; simpl in *.
-  apply apply_regroup_agrees. exact H.
-Qed.
-
-Theorem run_bundle_guarded_agrees : forall os m m', run_bundle_guarded os m = Ok m' -> run_bundle os m = Ok m'.
-Proof.
-  intros os m m' H. unfold run_bundle_guarded, run_bundle in *.
-  destruct (steps_guarded os m) as [m1| |] eqn:E; unfold bind in H; try discriminate.
-  assert (Es : steps os m = Ok m1).
-  { clear H. revert m m1 E. induction os as [|o t IH]; intros m m1 E; simpl in *; [exact E|].
-    destruct (step_guarded o m) as [m2| |] eqn:E2; simpl in E; try discriminate.
-    rewrite (step_guarded_agrees o m m2 E2). simpl. apply IH. exact E. }
-  rewrite Es. unfold bind. exact H.
-Qed.
-
-Inductive reachable_g : meta -> Prop :=
-| reachg_init : reachable_g empty_meta
-| reachg_bundle : forall m os m', reachable_g m -> run_bundle_guarded os m = Ok m' -> reachable_g m'.
-
-Theorem reachable_g_resolve : forall m, reachable_g m -> RefsResolve m = true.
-Proof.
   intros m H. induction H as [|m os m' Hr IH Hb].
   - vm_compute. reflexivity.
-  - apply (run_bundle_guarded_preserves os m m' IH Hb).
+  - apply (run_bundle_preserves os m m' IH Hb).
 Qed.
